@@ -65,6 +65,11 @@ int libwifi_get_wifi_frame(struct libwifi_frame *fi, const unsigned char *frame,
         memcpy(fi->radiotap_info, &rtap_info, sizeof(struct libwifi_radiotap_info));
     }
 
+    // The frame control field must be present before it is inspected
+    if (frame_data_len < sizeof(struct libwifi_frame_ctrl)) {
+        return -EINVAL;
+    }
+
     struct libwifi_frame_ctrl *frame_control = (struct libwifi_frame_ctrl *) frame_data;
 
     switch (frame_control->type) {
